@@ -1,5 +1,6 @@
-From Gv Require Import lib.Bytes lib.Gql C05.Lex.
+From Gv Require Import lib.Bytes lib.Gql C05.Lex C05.Parse C05.Limits C05.Print C05.Spec.
 From Coq Require Import ZArith.
 Require Import ExtrOcamlBasic.
 Extraction Language OCaml.
-Extraction "model.ml" tokenize kind_code tok_lit Z.add Nat.add.
+Extraction "model.ml" tokenize kind_code tok_lit lex parse_bytes tokenize_limits print_doc
+  doc_depth doc_fields limits_ok_b ranges_ok_b roundtrip_ok_b Z.add Nat.add.
